@@ -581,7 +581,7 @@ func (tr *Tr) nilMapFacts(st *State, mt *types.Map, m string) {
 	tr.typeFactDone[key] = true
 	tr.sc.fact(fmt.Sprintf("(=> (= %s 0) (and (= %s 0) (forall ((k Int)) (! (not (select (select %s %s) k)) :pattern ((select (select %s %s) k))))))",
 		m, sSel(tr.mapLen(st, mt), m), tr.mapDom(st, mt), m, tr.mapDom(st, mt), m))
-	tr.sc.fact(sLe("0", sSel(tr.mapLen(st, mt), m)))
+	tr.sc.fact(fmt.Sprintf("(and (<= 0 %s) (<= %s 2147483648))", sSel(tr.mapLen(st, mt), m), sSel(tr.mapLen(st, mt), m)))
 }
 
 func (tr *Tr) mapLoad(st *State, mt *types.Map, m, k string) (Value, string) {
